@@ -118,6 +118,8 @@ def arith(op, a, b):
                 r = Fraction(a) ** b
                 NEGPOW[0] += 1
                 return float(r)   # kind of a negative integer power is left open (int or float), see C03.agree
+            if isint(a) and isint(b) and abs(a) > 1 and b * math.log2(abs(a)) > 64:
+                raise OutOfDomain("int64")      # (before computing it: 3**3**3**3 has 3.6e12 digits)
             if isinstance(a, (int, float)) and not isinstance(b, complex) and a < 0 and float(b) != int(b):
                 raise OutOfDomain("real->complex")
             if (isinstance(a, complex) or isinstance(b, complex)) and a != 0:
